@@ -10,31 +10,9 @@ def nontrivial(h, lines):
 
 
 def relay_reads(ctx):
-    """what the relay and the parked-pool reader are built on: a stratum Read that is stopped (every destination change stops the
-    relay directions and the autoread of the parked pool this way) must not lose a pool message that arrives at that instant —
-    the read side of C14's connection harness (real StratumConnection, hooked net.Conn) against Model/Conn.lean"""
-    exe = L.build_harness(ctx, "proxy")
-    if not exe:
-        return 0
-    rc, out = L.run_harness(ctx, exe, "TestVerifC14$", env={"VERIF_N": 240 if ctx.tier == "quick" else 3000}, timeout=900)
-    if rc != 0:
-        ctx.tie_failures.append("connection harness run failed (rc=%d): %s" % (rc, out[-300:]))
-        return 0
-    impl = ctx.out + "/c14.impl.txt"
-    rc, err = L.drv("model", "c14", impl, impl + ".model.txt")
-    if rc != 0:
-        ctx.tie_failures.append("driver model c14 failed: " + err[-200:])
-        return 0
-    for d in L.diff_cases(impl, impl + ".model.txt"):
-        if d["header"].split()[-1] != "read":
-            continue
-        ops = [l for l in d["lines"][:d["first"] + 1] if l.startswith("> ")]
-        L.violation(ctx, "c03:relay-read-loses-or-alters-a-pool-message",
-                    "a stratum Read that is being stopped: implementation %r, model %r — a notification of the pool that arrives while a relay direction (or the reader of a parked pool) is stopped for a destination change does not reach the miner / the pool's recorded view" % (d["impl"], d["other"]),
-                    {"clause": "notifications are relayed in order and unaltered; the parked pool's view is kept up to date", "case": d["header"], "ops": ops,
-                     "how_to_replay": "bin/check C03 --replay <this file>"})
-        break
-    return sum(1 for h, ls in L.parse_cases(impl) if h.endswith("read") for l in ls if l.startswith("> "))
+    return L.conn_reads(ctx, "c03:relay-read-loses-or-alters-a-pool-message",
+                        "a notification of the pool that arrives while a relay direction (or the reader of a parked pool) is stopped for a destination change does not reach the miner / the pool's recorded view",
+                        "notifications are relayed in order and unaltered; the parked pool's view is kept up to date", "C03")
 
 
 def run(ctx):
